@@ -401,6 +401,9 @@ class ASTRewriter(ast.NodeTransformer):
 
     def visit_For(self, node):
         """Unroll for loops to single iterations"""
+        if node.orelse:
+            raise Exception("for ... else is not supported")
+
         iter = self.__unroll_arg(self.visit(node.iter))
         rolls = []
         iter = flatten(iter)
